@@ -10,7 +10,7 @@ LIN = {"AlreadyUsedError", "PlaceNotUsedError", "UnnamedExprNotUsedError", "Unna
 
 
 def run(ctx: Ctx) -> int:
-    n, depth, nfixed = ctx.pick(60, 1200), ctx.pick(2, 3), 28
+    n, depth, nfixed = ctx.pick(60, 1200), ctx.pick(2, 3), 37
     B = 6
     base = {"VERIF_C06_N": n, "VERIF_C06_SEED": ctx.seed, "VERIF_C06_DEPTH": depth}
     jobs = []
